@@ -79,7 +79,7 @@ func checkC04(c *Check) {
 			}
 			nIns++
 			c.SawFunc(fi.Name())
-			key := fi.Obj.Name() + ":" + fv.Name()
+			key := refName(fi.Obj) + ":" + fv.Name()
 			k := objOf(info, ix.Index)
 			if k == nil {
 				c.Fail("R1w", key, as.Pos(), "undecided: inserted key is not a variable")
